@@ -44,7 +44,7 @@ SubKinds == [
    constraints between fields): e.g. sig = "signed" means "signed by the key
    the harness holds for `from` if it holds one, otherwise by the sender".   *)
 Fields == [
-  nsub       |-> <<"0", "1", "few", "many">>,
+  nsub       |-> <<"0", "1", "few", "limp", "many">>,     \* few = 3 = the limit of the limit filter, limp = limit+1
   subTopic   |-> <<"absent", "empty", "known", "unknown", "huge">>,
   subFlag    |-> <<"absent", "true", "false">>,
   subPart    |-> <<"absent", "req", "sup", "both">>,
@@ -57,21 +57,22 @@ Fields == [
   data       |-> <<"empty", "small", "big">>,
   ngraft     |-> <<"0", "1", "many">>,
   graftTopic |-> <<"absent", "empty", "known", "unknown", "huge">>,
-  nprune     |-> <<"0", "1", "many">>,
+  nprune     |-> <<"0", "1", "pend", "pendp", "many">>,   \* pend = MaxPendingConnections + Connectors PRUNEs, pendp = one more
   pruneTopic |-> <<"absent", "empty", "known", "unknown", "huge">>,
   backoff    |-> <<"absent", "0", "1", "max">>,          \* max = 2^64-1
-  npx        |-> <<"0", "1", "many">>,
-  pxId       |-> <<"absent", "empty", "garbage", "connected", "unconnected", "self">>,
+  npx        |-> <<"0", "1", "cap", "capp", "many">>,     \* cap = PrunePeers
+  pxId       |-> <<"absent", "empty", "garbage", "connected", "unconnected", "self", "fresh">>,
+                 \* fresh: a new identity per entry; its "valid" record points at an address nobody listens on (the dial hangs)
   pxRec      |-> <<"absent", "garbage", "wrongdomain", "wrongtype", "wrongid", "valid">>,
   nihave     |-> <<"0", "1", "many">>,
   ihaveTopic |-> <<"absent", "empty", "known", "unknown", "huge">>,
-  ihaveN     |-> <<"0", "1", "many">>,
+  ihaveN     |-> <<"0", "1", "capm", "cap", "capp", "many">>,   \* cap = MaxIHaveLength
   ihaveId    |-> <<"empty", "known", "unknown", "huge">>,
   niwant     |-> <<"0", "1", "many">>,
   iwantN     |-> <<"0", "1", "many">>,
   iwantId    |-> <<"empty", "known", "unknown", "huge">>,
   nidw       |-> <<"0", "1", "many">>,
-  idwN       |-> <<"0", "1", "many">>,
+  idwN       |-> <<"0", "1", "cap", "capp", "many">>,     \* cap = MaxIDontWantLength
   idwId      |-> <<"empty", "known", "unknown", "huge">>,
   ext        |-> <<"absent", "ctlonly", "empty", "test", "partial", "both">>,
   part       |-> <<"absent", "present">>,
@@ -94,10 +95,10 @@ DeepOverride == [
   key        |-> <<"absent", "match">>,
   ngraft     |-> <<"1", "many">>,
   graftTopic |-> <<"known", "unknown">>,
-  nprune     |-> <<"1", "many">>,
+  nprune     |-> <<"1", "pend", "pendp", "many">>,
   pruneTopic |-> <<"known">>,
-  npx        |-> <<"1", "many">>,
-  pxId       |-> <<"unconnected", "garbage", "absent">>,
+  npx        |-> <<"1", "cap", "capp", "many">>,
+  pxId       |-> <<"unconnected", "garbage", "absent", "fresh">>,
   nihave     |-> <<"1", "many">>,
   ihaveTopic |-> <<"known">>,
   niwant     |-> <<"1", "many">>,
@@ -132,8 +133,14 @@ CfgDeepOverride == [ sign |-> <<"strict">>, hscore |-> <<"zero", "high">>, filte
    honest ones included, so that pair of classes is not a configuration of the property.              *)
 Forbidden == << <<"cfg.validator", "seqno", "cfg.sign", "nosign">> >>
 
+(* The flood-protection caps the node under test is configured with (small, so that "exactly at the
+   cap" and "one more" are cheap to reach).  The driver builds the node from THESE numbers and turns
+   the classes capm / cap / capp / pend / pendp / limp into counts with them.                       *)
+Caps == [ MaxIHaveLength |-> 3, MaxIHaveMessages |-> 2, MaxIDontWantLength |-> 2, MaxIDontWantMessages |-> 2,
+          PrunePeers |-> 2, MaxPendingConnections |-> 4, Connectors |-> 1, GossipRetransmission |-> 2, SubLimit |-> 3 ]
+
 Table == [ subkinds |-> SubKinds, fields |-> Fields, deep |-> DeepOverride,
-           cfg |-> Cfg, gossipOnly |-> GossipOnly, cfgDeep |-> CfgDeepOverride, forbidden |-> Forbidden ]
+           cfg |-> Cfg, gossipOnly |-> GossipOnly, cfgDeep |-> CfgDeepOverride, forbidden |-> Forbidden, caps |-> Caps ]
 
 -----------------------------------------------------------------------------
 Blank == [k \in DOMAIN Fields |-> Fields[k][1]]
@@ -185,6 +192,27 @@ Alphabet == [
   partial     |-> Frame("Rpc", "rpc", [part |-> "present", partTopic |-> "known", group |-> "small", pdata |-> "small"]),
   testext     |-> Frame("Rpc", "rpc", [textmsg |-> "present"]) ]
 
+(* Frames that only the anchor scenarios use (they are not letters of the sequence alphabet). *)
+IHaveOf(n) == Frame("Rpc", "rpc", [nihave |-> "1", ihaveTopic |-> "known", ihaveN |-> n, ihaveId |-> "unknown"])
+IdwOf(n)   == Frame("Rpc", "rpc", [nidw |-> "1", idwN |-> n, idwId |-> "unknown"])
+PxOf(np)   == Frame("Rpc", "rpc", [nprune |-> np, pruneTopic |-> "known", npx |-> "1", pxId |-> "fresh", pxRec |-> "valid"])
+AnchorFrames == [
+  ihave1    |-> IHaveOf("1"),
+  ihavecapm |-> IHaveOf("capm"),
+  ihavecap  |-> IHaveOf("cap"),
+  ihavecapp |-> IHaveOf("capp"),
+  idw1      |-> IdwOf("1"),
+  idwcap    |-> IdwOf("cap"),
+  idwcapp   |-> IdwOf("capp"),
+  pxcap     |-> Frame("Rpc", "rpc", [nprune |-> "1", pruneTopic |-> "known", npx |-> "cap", pxId |-> "fresh", pxRec |-> "valid"]),
+  pxcapp    |-> Frame("Rpc", "rpc", [nprune |-> "1", pruneTopic |-> "known", npx |-> "capp", pxId |-> "fresh", pxRec |-> "valid"]),
+  pxpend    |-> PxOf("pend"),
+  pxpendp   |-> PxOf("pendp"),
+  pxflood   |-> Frame("Rpc", "rpc", [nprune |-> "many", pruneTopic |-> "known", npx |-> "many", pxId |-> "fresh", pxRec |-> "valid"]),
+  sublim    |-> Frame("Rpc", "rpc", [nsub |-> "few", subTopic |-> "known", subFlag |-> "true"]),
+  sublimp   |-> Frame("Rpc", "rpc", [nsub |-> "limp", subTopic |-> "known", subFlag |-> "true"]) ]
+Letters == [a \in DOMAIN Alphabet \cup DOMAIN AnchorFrames |-> IF a \in DOMAIN Alphabet THEN Alphabet[a] ELSE AnchorFrames[a]]
+
 (* Anchor scenarios: one short sequence per mechanism named in the property's anchors, in a
    configuration that is known to reach it, so that "the run reached the mechanism" (the coverage
    obligations of the check) does not depend on the luck of the covering arrays.  cfg lists the
@@ -206,6 +234,22 @@ Anchors == <<
   [name |-> "graylisted",       cfg |-> [router |-> "gossipsub", score |-> "on", hscore |-> "low"], seq |-> <<"msg", "graft">>],
   [name |-> "unsigned",         cfg |-> [router |-> "gossipsub"], seq |-> <<"msgunsigned", "msgself">>],
   [name |-> "unknown-peer",     cfg |-> [router |-> "gossipsub", hpeer |-> "unknown"], seq |-> <<"graft", "msg", "ihave">>],
+  \* every flood-protection cap: filled EXACTLY, then one more, inside one heartbeat, with and without scoring
+  [name |-> "ihave-exact-more",       cfg |-> [router |-> "gossipsub", score |-> "on", hscore |-> "high"], seq |-> <<"ihavecap", "ihave1">>],
+  [name |-> "ihave-many-more",        cfg |-> [router |-> "gossipsub", score |-> "on"], seq |-> <<"ihave", "ihave1">>],
+  [name |-> "ihave-split-exact",      cfg |-> [router |-> "gossipsub", score |-> "on", hscore |-> "high"], seq |-> <<"ihavecapm", "ihave1", "ihave1">>],
+  [name |-> "ihave-over-more",        cfg |-> [router |-> "gossipsub", score |-> "on"], seq |-> <<"ihavecapp", "ihave1">>],
+  [name |-> "ihave-exact-noscore",    cfg |-> [router |-> "gossipsub"], seq |-> <<"ihavecap", "ihave1", "ihave1">>],
+  [name |-> "ihave-rpcs-cap",         cfg |-> [router |-> "gossipsub", score |-> "on"], seq |-> <<"ihave0", "ihave0", "ihave1">>],
+  [name |-> "idw-exact-more",         cfg |-> [router |-> "gossipsub", score |-> "on"], seq |-> <<"idwcap", "idw1", "idw1">>],
+  [name |-> "idw-over",               cfg |-> [router |-> "gossipsub"], seq |-> <<"idwcapp", "idwcap">>],
+  [name |-> "idw-rpcs-cap",           cfg |-> [router |-> "gossipsub", proto |-> "v12"], seq |-> <<"idw1", "idw1", "idw1">>],
+  [name |-> "iwant-retransmission",   cfg |-> [router |-> "gossipsub", score |-> "on"], seq |-> <<"iwant", "iwant", "iwant">>],
+  [name |-> "px-prunepeers",          cfg |-> [router |-> "gossipsub"], seq |-> <<"pxcap", "pxcapp">>],
+  [name |-> "px-pending-exact",       cfg |-> [router |-> "gossipsub"], seq |-> <<"pxpend", "pxpendp">>],
+  [name |-> "px-flood",               cfg |-> [router |-> "gossipsub"], seq |-> <<"pxflood", "pxpend">>],
+  [name |-> "px-flood-scored",        cfg |-> [router |-> "gossipsub", score |-> "on", hscore |-> "high"], seq |-> <<"pxflood", "pxflood">>],
+  [name |-> "sub-limit",              cfg |-> [router |-> "gossipsub", filter |-> "limit"], seq |-> <<"sublim", "sublimp">>],
   [name |-> "floodsub",         cfg |-> [router |-> "floodsub"], seq |-> <<"msg", "garbage", "msg">>],
   [name |-> "randomsub",        cfg |-> [router |-> "randomsub"], seq |-> <<"msg", "toolong", "msg">>] >>
 
